@@ -53,6 +53,8 @@ class Ctx:
         self.ops_seen = set()
         self.trace = None  # optional dict name -> T for all values (top-level)
         self.unknown_elementwise_as_uf = False
+        self.rand_counter = itertools.count()
+        self.stochastic = False
 
     def fresh_real(self, tag):
         return z3.Real(f"__oob_{tag}_{next(self.fresh)}")
@@ -1581,6 +1583,25 @@ def sort_pairs(vals, idx, kind, descending=False):
             vals[j], vals[j + 1] = S.ite(c, b, a, kind), S.ite(c, a, b, kind)
             idx[j], idx[j + 1] = S.ite(c, ib, ia, "i"), S.ite(c, ia, ib, "i")
     return vals, idx
+
+
+@op("RandomUniformLike", "RandomNormalLike")
+def _random_like(ctx, ins, at):
+    # stochastic: every node instance yields fresh, independent symbols (in evaluation order)
+    x = ins[0]
+    dt = np_dtype_of(int(at["dtype"])) if "dtype" in at else x.dtype
+    k = next(ctx.rand_counter)
+    out = np.empty(x.shape, dtype=object)
+    flat = out.reshape(-1) if out.ndim else None
+    n = out.size
+    for i in range(n):
+        v = z3.Real(f"__rand{k}_{i}")
+        if flat is None:
+            out[()] = v
+        else:
+            flat[i] = v
+    ctx.stochastic = True
+    return [T(dt, out)]
 
 
 # --------------------------------------------------------------------------- evaluation
